@@ -130,8 +130,8 @@ def main(chk):
     nontrivial = sum(v["nontrivial"] for v in impls["pure"].values())
     # ---- LRUCache: model check + every edge replayed
     lplans = [dict(Cap=2, ThrNum=1, ThrDen=2, NKeys=4, MaxDepth=6)] if q else \
-             [dict(Cap=2, ThrNum=1, ThrDen=2, NKeys=4, MaxDepth=7), dict(Cap=3, ThrNum=1, ThrDen=2, NKeys=4, MaxDepth=6),
-              dict(Cap=2, ThrNum=0, ThrDen=1, NKeys=3, MaxDepth=7)]
+             [dict(Cap=2, ThrNum=1, ThrDen=2, NKeys=4, MaxDepth=7), dict(Cap=3, ThrNum=0, ThrDen=1, NKeys=4, MaxDepth=6),
+              dict(Cap=2, ThrNum=0, ThrDen=1, NKeys=3, MaxDepth=7), dict(Cap=1, ThrNum=1, ThrDen=2, NKeys=3, MaxDepth=6)]
     gs = pc.dump_graphs_parallel(chk, [("InitLRUE", "NextLRU", pc.consts(**lp), LRU_INVS, LRU_PROPS) for lp in lplans], timeout=1500)
     lru = []
     walks_total = steps_total = 0
